@@ -925,8 +925,11 @@ func genHTTPOps(rc *RunCtx, c PCfg) []Op {
 
 func (w *pWorld) httpTopic(sel int64) (string, bool, bool) { // value, present, valid
 	switch sel % 10 {
-	case 0, 1, 2:
+	case 0, 1:
 		return "h0", true, true
+	case 2:
+		// a legal name made of words the routes are made of
+		return "unpause.delete_empty-create", true, true
 	case 3:
 		return "h1", true, true
 	case 4:
